@@ -3,9 +3,9 @@ from . import lib_client as L
 from . import lib_client_suites as S
 
 ID = "C13"
-GENERATORS = ["client", "framer_tcpascii"]
+GENERATORS = ["client", "framer_tcpascii", "framer_rtubin"]
 PROP_FILE = "C13"
-PROP_FILES = ["C13", "C13_tcp"]
+PROP_FILES = ["C13", "C13_tcp", "C13_rtu"]
 CASE_DEPS = S.CASE_DEPS
 RULE = ("real ModbusTcpClient / ModbusUdpClient / ModbusSerialClient(rtu, ascii, binary) / framer-over-TCP clients over a "
         "scripted fake transport in virtual time: EVERY script of the ten peer behaviours (full, exception, nothing, k of n "
